@@ -27,6 +27,25 @@ def tainted_programs(draw):
         mod, lvl = draw(st.sampled_from([('os', 0), ('helpers', 0), ('a.b', 0), (None, 1), (None, 2), ('sibling', 1), ('pkg.mod', 2)]))
         tree.body.insert(pos, ast.ImportFrom(module=mod, names=[ast.alias(name='*', asname=None)], level=lvl))
         trig, kind = 'import *', 'star-import'
+    elif r == 1:
+        # the builtin as the default value of a parameter of the same name (`def f(*, eval=eval)`): defaults are evaluated in the
+        # enclosing scope, where nothing binds the name, so this is a reference to the builtin
+        funcs = [n for n in ast.walk(tree) if isinstance(n, (ast.FunctionDef, ast.AsyncFunctionDef, ast.Lambda))]
+        trig = draw(st.sampled_from(TRIGGERS))
+        if not funcs:
+            f = ast.FunctionDef(name='run_it', args=ast.arguments(posonlyargs=[], args=[], vararg=None, kwonlyargs=[], kw_defaults=[], kwarg=None, defaults=[]),
+                                body=[ast.Pass()], decorator_list=[], returns=None, type_comment=None, type_params=[])
+            tree.body.append(f)
+            funcs = [f]
+        f = funcs[draw(st.integers(0, len(funcs) - 1))]
+        if draw(st.booleans()):
+            f.args.kwonlyargs.append(ast.arg(arg=trig, annotation=None, type_comment=None))
+            f.args.kw_defaults.append(ast.Name(id=trig, ctx=ast.Load()))
+            kind = 'name-as-default-of-same-named-kwonly-parameter'
+        else:
+            f.args.args.append(ast.arg(arg=trig, annotation=None, type_comment=None))
+            f.args.defaults.append(ast.Name(id=trig, ctx=ast.Load()))
+            kind = 'name-as-default-of-same-named-parameter'
     else:
         loads = [n for n in ast.walk(tree) if isinstance(n, ast.Name) and isinstance(n.ctx, ast.Load)]
         if not loads:
